@@ -55,6 +55,8 @@ def registry():
         'unread': 'all(k >= consumed() ==> old(in)[k] == oldmem(old(in), k) for k in range(old(data_len)))',
         'untouched': 'not same(in, out) ==> all(k >= consumed() ==> old(out)[k] == oldmem(old(out), k) for k in range(old(data_len)))'}
     QUICK = ['bl16.inplace', 'bl16.disjoint', 'null_in', 'null_out', 'null_state', 'block_too_long']
+    # the block just processed was still the caller's original input when the iteration started (ground instances of `unread`)
+    INPUT_BLOCK = 'all(iter(old(in)[consumed() - bl() + t]) == oldmem(old(in), consumed() - bl() + t) for t in range(bl()))'
     EARLIER = 'all(k < consumed() - bl() ==> old(out)[k] == iter(old(out)[k]) for k in range(old(data_len)))'
 
     enc = dict(common_ens)
@@ -68,6 +70,7 @@ def registry():
         'chain': 'all(t < bl() ==> iv[t] == (old(cbcState.iv[t]) if consumed() == 0 else old(out)[consumed() - bl() + t]) for t in range(16))'})
     R.fn('CBC_encrypt', regions=SHAPE, configs=cfgs, cost=60, quick=QUICK, modifies=['out', 'cbcState.iv'], ensures=enc, lemmas=LEM,
          loops={0: dict(invariants=inv, decreases='data_len', split={'blocks': ('b', 'consumed() - bl()', 'b + bl() <= consumed() - bl()')}, lemmas={
+             'input_block': INPUT_BLOCK,
              'new_block': 'all(old(out)[consumed() - bl() + t] == (ekx(atold(old(in) + consumed() - bl()), atold(cbcState.iv), bl(), t) if consumed() == bl() else '
                           'ekx(atold(old(in) + consumed() - bl()), old(out) + consumed() - 2 * bl(), bl(), t)) for t in range(bl()))',
              'earlier': EARLIER})})
@@ -85,6 +88,7 @@ def registry():
         'chain': 'all(t < bl() ==> iv[t] == (old(cbcState.iv[t]) if consumed() == 0 else oldmem(old(in), consumed() - bl() + t)) for t in range(16))'})
     R.fn('CBC_decrypt', regions=SHAPE, configs=cfgs, cost=60, quick=QUICK, modifies=['out', 'cbcState.iv'], ensures=dec, lemmas=LEM,
          loops={0: dict(invariants=inv, decreases='data_len', split={'blocks': ('b', 'consumed() - bl()', 'b + bl() <= consumed() - bl()')}, lemmas={
+             'input_block': INPUT_BLOCK,
              'new_block': 'all(old(out)[consumed() - bl() + t] == dk(atold(old(in) + consumed() - bl()), bl(), t) ^ '
                           '(old(cbcState.iv[t]) if consumed() == bl() else oldmem(old(in), consumed() - 2 * bl() + t)) for t in range(bl()))',
              'earlier': EARLIER})})
